@@ -47,9 +47,9 @@ func (prop) ID() string { return "C02" }
 
 func (prop) Plan(tier string) []core.Phase {
 	if tier == "thorough" {
-		return []core.Phase{{Name: "history", Runs: 8000000}}
+		return []core.Phase{{Name: "history", Runs: 60000000}}
 	}
-	return []core.Phase{{Name: "history", Runs: 300000}}
+	return []core.Phase{{Name: "history", Runs: 2000000}}
 }
 
 func (prop) Describe() core.Description {
